@@ -20,4 +20,4 @@ cp "$prog" "$W/p.ddp"; objs=()
 for f in "${cs[@]}"; do cp "$f" "$W/"; gcc -O2 -c -I"$C/runtime/include" "$f" -o "$W/$(basename "$f" .c).o" || exit 2; objs+=("$W/$(basename "$f" .c).o"); done
 cd "$W" && DDPPATH="$C/ddp" "$C/kddp" kompiliere p.ddp -o p.o --list-defs-linken=false "${flags[@]}" || exit 3
 gcc -o p p.o "${objs[@]}" "$C/listdefs.o" "$C/runtime/libddpruntime.a" "$C/runtime/source/main.o" -lm || exit 2
-./p; rc=$?; echo "[exit status $rc]"
+${RUN_WRAP:-} ./p; rc=$?; echo "[exit status $rc]"
